@@ -255,8 +255,9 @@ func RaftNode.attemptToFetchSnapshot
 
 func RaftNode.Restore
   props C09
-  requires n.state != nil && n.balloon != nil && n.balloon.hyperTree != nil && !isnil(n.balloon.store) && !isnil(n.db) && !isnil(n.log) && !isnil(rc)
-  modifies everything, snapshotLoads, rebuildSeenLoads, versionSeenLoads, stateSeenLoads, lastFound, lastKey8
+  requires n.state != nil && n.balloon != nil && HyperLive(n.balloon.hyperTree) && !isnil(n.balloon.store) && !isnil(n.db) && !isnil(n.log) && !isnil(rc)
+  may_panic
+  modifies everything, snapshotLoads, rebuildSeenLoads, versionSeenLoads, stateSeenLoads, lastFound, lastKey8, openReaders, tilesRead, readerExhausted, cachePuts
   ensures C09/at-most-one-transfer: snapshotLoads == old(snapshotLoads) || snapshotLoads == old(snapshotLoads) + 1
   ensures C09/hyper-cache-rebuilt-after-transfer: isnil(result) && snapshotLoads != old(snapshotLoads) ==> rebuildSeenLoads == snapshotLoads
   ensures C09/version-and-state-reloaded-after-transfer: isnil(result) ==> versionSeenLoads == snapshotLoads && stateSeenLoads == snapshotLoads
